@@ -1350,3 +1350,114 @@ def check_c10(tier, replay):
     vlib.write_evidence(prop, tier, "model_checking", cover, assumptions, time.time() - t0, len(violations))
     known_hits = [dict(k2, **known[k2["key"]]) for k2 in summ["known"] if k2["key"] in known]
     return vlib.finish(prop, violations, known_hits)
+
+
+FLOW_CONSTS = {"Devices": '{"d1", "d2"}', "Folders": '{"f1"}', "Slots": '{"s1", "s2"}',
+               "Kinds": '{"k1", "k2", "k3"}', "Names": '{"n1"}', "Descs": '{"e1"}'}
+
+
+@register("C03")
+def check_c03(tier, replay):
+    prop = "C03"
+    t0 = time.time()
+    wd = vlib.workdir("%s_%s" % (prop, tier))
+    scratch = vlib.scratch_base(prop)
+    if replay:
+        vlib.cargo_build()
+        v = json.load(open(replay))
+        d = v.get("detail", v)
+        pfile = os.path.join(wd, "replay.ndjson")
+        with open(pfile, "w") as f:
+            f.write(json.dumps(d["case"]) + "\n")
+        summ = vlib.run_harness([vlib.harness_bin("replay"), "leak", pfile, scratch, str(d.get("idx", 0))])
+        for x in summ["violations"]:
+            log("REPLAY-DIVERGENCE " + x["summary"][:1500])
+        return 1 if summ["violations"] else 0
+    # (1) the flow design: exhaustive for short histories
+    consts = dict(FLOW_CONSTS, MaxOps="3" if tier == "quick" else "4", Deviations="{}", EmitBehaviours="FALSE")
+    cfg = vlib.render_cfg("MC_Flow.cfg", consts, os.path.join(wd, "prop.cfg"))
+    r = vlib.run_tlc("MC_Flow", cfg, prop + "p", timeout_s=1800)
+    if r.violated:
+        raise ToolError("Flow spec violates %s" % r.violated)
+    for dev in ("ClearDescription", "FolderKeyInClear"):
+        cfg = vlib.render_cfg("MC_Flow.cfg", dict(consts, MaxOps="2", Deviations=dev_set([dev])),
+                              os.path.join(wd, "dev.cfg"))
+        rd = vlib.run_tlc("MC_Flow", cfg, prop + "d", timeout_s=600, coverage=False)
+        if "OnlyNamesInClear" not in rd.violated:
+            raise ToolError("the invariants of Flow.tla do not notice deviation %s" % dev)
+    # (2) long behaviours by simulation, replayed on two devices and a server
+    depth = 10 if tier == "quick" else 14
+    want = 18 if tier == "quick" else 150
+    cases = []
+    cfg = vlib.render_cfg("MC_Flow.cfg", dict(consts, MaxOps=str(depth), EmitBehaviours="TRUE"),
+                          os.path.join(wd, "emit.cfg"))
+    vlib.run_tlc("MC_Flow", cfg, prop + "e", timeout_s=900, coverage=False, workers=1,
+                 simulate=(want * 3, depth + 1),
+                 tag_sink=lambda tag, obj: cases.append(obj) if tag == "CASE" else None)
+    # TLC evaluates the invariant on every successor of the last step: keep one per prefix
+    uniq = {}
+    for h in cases:
+        uniq.setdefault(json.dumps([s["op"] for s in h[:-1]]), h)
+    cases = list(uniq.values())[:want]
+    if len(cases) < want // 2:
+        raise ToolError("TLC emitted only %d behaviours" % len(cases))
+    ops = {}
+    for h in cases:
+        for s in h:
+            ops[s["op"][0]] = ops.get(s["op"][0], 0) + 1
+    for a in ("CreateSecret", "UpdateSecret", "MoveSecret", "CreateFile", "CreateFolder", "RenameFolder",
+              "SetDescription", "Sync", "Export"):
+        if not ops.get(a):
+            raise ToolError("no generated behaviour contains %s" % a)
+    vlib.cargo_build()
+    chunks = 6
+    per = (len(cases) + chunks - 1) // chunks
+    inputs = []
+    for i in range(chunks):
+        part = cases[i * per:(i + 1) * per]
+        if not part:
+            continue
+        p = os.path.join(wd, "cases_%02d_%d.ndjson" % (i, i * per))
+        with open(p, "w") as f:
+            for c in part:
+                f.write(json.dumps(c) + "\n")
+        inputs.append(p)
+    summ = vlib.run_harness_parallel(
+        lambda p: [vlib.harness_bin("replay"), "leak", p, os.path.join(scratch, os.path.basename(p)[:8]),
+                   os.path.basename(p).split("_")[2].split(".")[0]],
+        inputs, jobs=6, timeout_s=3000)
+    if summ["mismatches"]:
+        raise ToolError("the byte scan does not see the clear tokens Flow.tla predicts (scanner or model out of "
+                        "step with the code): %s" % json.dumps(summ["mismatches"][:3])[:1500])
+    variants = set(k for k in summ["nontrivial_keys"] if k.startswith("variant:"))
+    if len(variants) < 46:
+        raise ToolError("only %d secret variants were exercised" % len(variants))
+    cover = {
+        "states": r.distinct, "transitions": r.generated,
+        "traces_validated_against_impl": len(cases),
+        "evaluations": summ["steps"], "distinct_nontrivial": len(variants),
+        "rule": "Flow.tla models what each operation (create/update/move secret of every kind, file secret, folder "
+                "create/rename/describe, sync of a device, backup export) writes to each sink (device storage, "
+                "server storage, wire, archive, audit log) as clear or sealed-under-key tokens; TLC checks "
+                "OnlyNamesInClear, NothingRecoverable (closure of what an observer of a sink can learn), "
+                "AccountPasswordNowhere and NamesFollowSync. Simulated behaviours are executed on two LocalAccount "
+                "devices (fs and sqlite) and an in-process server; after every operation every file under the "
+                "device and server directories (incl. sqlite db/WAL, blobs), every wire buffer, every archive "
+                "(raw and per decompressed entry) and the audit log is scanned with Aho-Corasick for all "
+                "markers planted so far (label, tags, every field of all 15 secret kinds, comment, recovery note, "
+                "nested custom fields, embedded and external file content and names, descriptions) and for the "
+                "account password, folder passwords and every secret of the identity folder (signing keys, age "
+                "identity, file password) in raw, hex, HEX, base64 / base64url at the 3 alignments, UTF-16LE/BE. "
+                "A secret class found anywhere is a violation; the set of marker-bearing folder names found per "
+                "sink must equal the specification's prediction after every step (otherwise tool error).",
+        "samples": summ["samples"][:3], "exhaustive": False, "behaviours": len(cases),
+        "operations": ops, "counters": summ["counters"],
+    }
+    assumptions = ["pairing messages, the relay and HTTP file-transfer bodies are not executed (the in-process "
+                   "client covers the sync endpoints; blobs are scanned at rest on the uploading device)",
+                   "a leak is a marker in one of the listed forms; compressed or otherwise transformed plaintext "
+                   "outside zip entries is not recognised",
+                   "the server's own log output (tracing) is not captured"]
+    vlib.write_evidence(prop, tier, "model_checking", cover, assumptions, time.time() - t0,
+                        len(summ["violations"]))
+    return vlib.finish(prop, summ["violations"], [])
